@@ -128,8 +128,40 @@ def run(conf, tier, seed, replay=None):
             if v.nontrivial < 1:
                 raise MachineryError("vacuous: no non-trivial segment recorded by %s" % g["test"])
             sighist = {}
+            # a segment whose FIRST unexplained event is a recorded finding is not examined beyond it; where the spec can
+            # switch the finding's clause off (tolerate_env), such segments are validated a second time with the clause
+            # off, and whatever is rejected then is a different violation (or another recorded finding)
+            failed = list(v.failed)
+            beyond = {}
             for fl in v.failed:
+                sig0 = conf["signature"](fl) if conf.get("signature") else "op=%s" % fl["event"].get("op")
+                for kf in vlib.findings_for(pid):
+                    if kf.get("tolerate_env") and re.fullmatch(kf["signature"], sig0):
+                        beyond.setdefault(kf["tolerate_env"], []).append(fl)
+                        break
+            if beyond and not replay:
+                tol_env = {k: "1" for k in beyond}
+                p2 = os.path.join(sc, "trace%d-beyond.ndjson" % gi)
+                nsg = 0
+                with open(p2, "w") as f:
+                    for fls in beyond.values():
+                        for fl in fls:
+                            nsg += 1
+                            for e in fl["segment"]:
+                                f.write(json.dumps(e) + "\n")
+                v2 = vlib.validate_trace(sc, g.get("family", fam), tr["module"], tr["cfg"], p2,
+                                         timeout=pick(tr.get("timeout", 1500), tier),
+                                         chunk_events=tr.get("chunk_events", 150000), extra_env=tol_env)
+                log("  second pass with the recorded finding's clause off (%s): %d segments, %d rejected beyond it" %
+                    (",".join(sorted(tol_env)), nsg, len(v2.failed)))
+                cov["trace_states"] += v2.states
+                for fl in v2.failed:
+                    fl["beyond"] = True
+                    failed.append(fl)
+            for fl in failed:
                 sig = conf["signature"](fl) if conf.get("signature") else "op=%s" % fl["event"].get("op")
+                if fl.get("beyond"):
+                    sig = "beyond-recorded-finding " + sig
                 sighist[sig] = sighist.get(sig, 0) + 1
                 hit = None
                 for kf in vlib.findings_for(pid):
